@@ -122,6 +122,6 @@ def components(tier, disabled):
     if "oc_appid_checks_on_group_members" not in disabled:
         fields += ["OnCompletion", "ApplicationID"]
     return {
-        "group": {"strategy": semantic_program(profile="modelled+group", disabled=disabled, focus=fields),
+        "group": {"strategy": semantic_program(profile="modelled+group", disabled=disabled, max_stmts=(12 if q else 18), focus=fields),
                   "check": check, "examples": 1200 if q else 60000, "sample": lambda c, i: RCFG(c).text},
     }
